@@ -22,6 +22,12 @@ for f in sorted(glob.glob(os.path.join(V, "checks", "registry.*.json"))):
     else:
         engs, chk = x.pop("_engines", []), x
     for e in engs:
+        # normalise to the schema's field names
+        if "kind_free_text" not in e and "description" in e:
+            e["kind_free_text"] = e.pop("description")
+        if "path" not in e:
+            e["path"] = " ".join(list(e.pop("specs", [])) + list(e.pop("harness", [])) + list(e.pop("checks", []) if isinstance(e.get("checks"), list) else []))
+        e = {k: e[k] for k in ("name", "path", "serves_properties", "kind_free_text") if k in e}
         if e["name"] not in [k["name"] for k in reg["engines"]]:
             reg["engines"].append(e)
     for pid, entry in chk.items():
